@@ -12,11 +12,11 @@ ST(p, v) == [A0 EXCEPT !.op = "SetText", !.p = p, !.val = v]
 \* nodes 1,2 = roots of models 1,2
 \* F0: one empty file per model
 F0 == <<CF(1, "f1", "V50"), CF(2, "g1", "V50")>>
-\* F1: /a {ELEMENTS {SYSTEM-SIGNAL s, I-SIGNAL i -> /a/s}}; model 2 has a file and AR-PACKAGES
-\*  3 AR-PACKAGES, 4 AR-PACKAGE a, 5 SN, 6 ELEMENTS, 7 SYSTEM-SIGNAL s, 8 SN, 9 I-SIGNAL i, 10 SN, 11 SYSTEM-SIGNAL-REF
+\* F1: a scratch package z created first, then /a {ELEMENTS {SYSTEM-SIGNAL s, I-SIGNAL i -> /a/s}}; model 2 has a file
+\*  3 AR-PACKAGES, 4 AR-PACKAGE z, 5 SN, 6 AR-PACKAGE a, 7 SN, 8 ELEMENTS, 9 SYSTEM-SIGNAL s, 10 SN, 11 I-SIGNAL i, 12 SN, 13 SYSTEM-SIGNAL-REF
 F1 == <<CF(1, "f1", "V50"), CF(2, "g1", "V50"),
-        CS(1, "AR-PACKAGES"), CN(3, "AR-PACKAGE", "a"), CS(4, "ELEMENTS"),
-        CN(6, "SYSTEM-SIGNAL", "s"), CN(6, "I-SIGNAL", "i"), CS(9, "SYSTEM-SIGNAL-REF"), SR(11, 7)>>
+        CS(1, "AR-PACKAGES"), CN(3, "AR-PACKAGE", "z"), CN(3, "AR-PACKAGE", "a"), CS(6, "ELEMENTS"),
+        CN(8, "SYSTEM-SIGNAL", "s"), CN(8, "I-SIGNAL", "i"), CS(11, "SYSTEM-SIGNAL-REF"), SR(13, 9)>>
 \* F2: reference graph: /a {s, s1, i -> /a/s, j -> /a/s, k -> /a/b (dangling)}, nested package /a/p {t}, r -> /a/p/t
 \*  3 AR-PACKAGES, 4 AR-PACKAGE a, 5 SN, 6 ELEMENTS, 7 SYSTEM-SIGNAL s, 8 SN, 9 SYSTEM-SIGNAL s1, 10 SN,
 \*  11 I-SIGNAL i, 12 SN, 13 I-SIGNAL j, 14 SN, 15 I-SIGNAL k, 16 SN, 17 ref(i), 18 ref(j), 19 ref(k)
@@ -30,7 +30,9 @@ F2 == <<CF(1, "f1", "V50"), CF(2, "g1", "V50"),
         CS(4, "AR-PACKAGES"), CN(20, "AR-PACKAGE", "p"), CS(21, "ELEMENTS"),
         CN(23, "SYSTEM-SIGNAL", "t"), CN(23, "I-SIGNAL", "r"), CS(26, "SYSTEM-SIGNAL-REF"), SR(28, 24),
         \* model 2: 29 AR-PACKAGES, 30 AR-PACKAGE a, 31 SN (a package moved here from model 1 meets its own name)
-        CS(2, "AR-PACKAGES"), CN(29, "AR-PACKAGE", "a")>>
+        CS(2, "AR-PACKAGES"), CN(29, "AR-PACKAGE", "a"),
+        \* model 1: 32 AR-PACKAGE b, 33 SN: an empty package that can take the ELEMENTS of a (a move inside the model)
+        CN(3, "AR-PACKAGE", "b")>>
 AF(p, f) == [A0 EXCEPT !.op = "AddToFile", !.p = p, !.f = f]
 RF(p, f) == [A0 EXCEPT !.op = "RemoveFromFile", !.p = p, !.f = f]
 \* F3: two files in model 1 (file ids: 1 = f1, 2 = g1 of model 2, 3 = f2); packages a (f1 only), b (both), c (both, with content)
@@ -64,10 +66,14 @@ LD(m, d) == [A0 EXCEPT !.op = "Load", !.m = m, !.k = d, !.name = d]
 \* F5: a model built by loading: pb = packages a (no ELEMENTS) and b
 \*  the root of model 1 is node 3 afterwards (1 = the replaced empty root); 4 AR-PACKAGES, 5 a, 6 SN, 7 b, 8 SN
 F5 == <<LD(1, "pb")>>
-\* F6: mixed content.  /a {DESC {L-2 [L=EN] { "txt", TT "t", XREF-TARGET x }}}, and a second L-2-less package b
-\*  3 AR-PACKAGES, 4 a, 5 SN, 6 DESC, 7 L-2, 8 TT, 9 XREF-TARGET x, 10 SN, 11 b, 12 SN
+\* F6: mixed content.  /a {DESC {L-2 [L=EN] { TT "t" }}} (a single sub element and no text),
+\*                     /b {DESC {L-2 [L=EN] { "txt", TT "u", XREF-TARGET x }}}
+\*  3 AR-PACKAGES, 4 a, 5 SN, 6 DESC, 7 L-2, 8 TT, 9 b, 10 SN, 11 DESC, 12 L-2, 13 TT, 14 XREF-TARGET x, 15 SN
 F6 == <<CF(1, "f1", "V50"), CF(2, "g1", "V50"),
         CS(1, "AR-PACKAGES"), CN(3, "AR-PACKAGE", "a"), CS(4, "DESC"), CS(6, "L-2"), SA(7, "L", EVal("EN")),
-        ST(7, SVal("txt")), CS(7, "TT"), ST(8, SVal("t")), CN(7, "XREF-TARGET", "x"), CN(3, "AR-PACKAGE", "b")>>
-AttrValuesDef == {<<"UUID", SVal("u1")>>, <<"DEST", EVal("SYSTEM-SIGNAL")>>, <<"DEST", EVal("I-SIGNAL")>>, <<"NAME-PATTERN", SVal("x")>>}
+        CS(7, "TT"), ST(8, SVal("t")),
+        CN(3, "AR-PACKAGE", "b"), CS(9, "DESC"), CS(11, "L-2"), SA(12, "L", EVal("EN")),
+        ST(12, SVal("txt")), CS(12, "TT"), ST(13, SVal("u")), CN(12, "XREF-TARGET", "x")>>
+AttrValuesDef == {<<"UUID", SVal("u1")>>, <<"DEST", EVal("SYSTEM-SIGNAL")>>, <<"DEST", EVal("I-SIGNAL")>>, <<"NAME-PATTERN", SVal("x")>>,
+                  <<"UUID", SVal("say \"hi\"")>>}
 =============================================================================
